@@ -13,7 +13,7 @@ Extraction "model.ml"
   is_send is_sync constructible node_send_bounds node_sync_bounds ctor_resolver_bounds green_token_unconditional
   Derive.expand from_raw into_raw static_text_of
   tok_ranges chunks v_len v_is_empty v_to_string v_contains v_find v_char_at v_slice v_eq_str v_eq_view
-  cinit crun all_done block_of
+  cinit crun all_done block_of off_of
   text_eq text_eq_old
   nav_exec nav_run
   subr offset_of len_at is_node_at kids parent_of ancestors
